@@ -44,7 +44,9 @@ REQUIRED = ["OPM.C12.cancel_unknown_rejected", "OPM.C12.cancel_ended_rejected", 
             "OPM.C12.cancel_refused_rejected", "OPM.C12.force_refused_rejected", "OPM.C12.cancel_running_finalizes",
             "OPM.C12.finalized_never_executes_again", "OPM.C12.C12_partial", "OPM.C12.C12_counterexample",
             "OPM.C12.cancelled_watch_leaves", "OPM.C12.forced_watch_activates", "OPM.C12.forced_wait_ends",
-            "OPM.C12.forced_threshold_not_awaited", "OPM.C12.interp_cancel_iff", "OPM.C12.interp_force_iff"]
+            "OPM.C12.forced_threshold_not_awaited", "OPM.C12.interp_cancel_iff", "OPM.C12.interp_force_iff",
+            # run-level lift of the interpreter half (C04 builder; proofs in lean/OPM/Lemmas/InterpC04Runs.lean)
+            "OPM.C12.accepted_cancel_never_runs_until_reset"]
 
 
 def engine_oracle(case, res):
@@ -63,6 +65,15 @@ def run(ctx: Check) -> int:
                 "not) or an unknown id at random ticks.")
     streams(ctx, ["c12", "c12", "mixed"], ctx.n(500, 12000), ctx.n(3, 4), ctx.n(60, 1500), [oracle_c12], "cmdmgr")
     engine_monitor(ctx, "c12", ctx.n(600, 14000), engine_oracle)
+    # ---- begin: interpreter half, threshold clause (added by the C04 builder; code in harness/c12_threshold.py) ----
+    # Methods with threshold lines; a force request for the line the interpreter holds back for its threshold
+    # (Engine.force_instruction with the record's instance id: such a line is not in the run log); an accepted
+    # force must let the line start within 3 interpreter ticks.  Failure key: forced-threshold-still-waiting.
+    from harness.c12_threshold import STATS as _thr_stats, oracle_forced_threshold, threshold_cases
+    ctx.monitor(threshold_cases(ctx.rng, ctx.n(80, 2000)), oracle_forced_threshold, impl_timeout=60)
+    for _k, _v in _thr_stats.items():
+        ctx.count("threshold:" + _k, _v)
+    # ---- end: interpreter half, threshold clause ----
     ctx.exhaustive = False
     ctx.extra["exhaustive_scope"] = f"all op sequences of length {ctx.n(3, 4)} over 9 ops (incl. cancel/force) after Start"
     ctx.extra["fix"] = FIX
@@ -72,5 +83,11 @@ def run(ctx: Check) -> int:
 
 
 def replay(obj) -> int:
+    if isinstance(obj.get("case"), dict) and obj["case"].get("kind") == "c12-threshold":   # (C04 builder's stream)
+        from harness.c12_threshold import oracle_forced_threshold
+        f = oracle_forced_threshold(obj["case"])
+        print(obj["case"]["pcode"])
+        print("oracle:", (f.key, f.detail) if f else "no failure")
+        return 1 if f else 0
     from harness.cmd_props import replay_case
     return replay_case(obj, "C12")
